@@ -104,6 +104,43 @@ theorem rawSign_verifies_strict (legacy : Bool) (dom : List UInt8) (a : Nat) (pr
   · rw [rawSign_take, rawSign_drop, leToNat_natToLe_mod_L]
     exact congrArg encodeEd (honest_equation _ _ _)
 
+/-! ## Clamping -/
+
+theorem byte_and_f8_eq : ∀ n, n < 256 → n &&& 248 = n - n % 8 := by decide +kernel
+theorem byte_clamp_hi_eq : ∀ n, n < 256 → (n &&& 127) ||| 64 = n % 64 + 64 := by decide +kernel
+
+/-- **Exact value of the clamped integer** (RFC 8032 §5.1.5 step 2 / RFC 7748 `decodeScalar25519`): clear
+the three low bits, clear bit 255, set bit 254. -/
+theorem clampedNat_eq {b : List UInt8} (hlen : b.length = 32) :
+    clampedNat b = 2 ^ 254 + leToNat b % 2 ^ 254 - leToNat b % 8 := by
+  unfold clampedNat clampInteger
+  have h1 := leToNat_modifyNth (fun x => x &&& 0xf8) 0 b (by omega)
+  have h2 := leToNat_modifyNth (fun x => (x &&& 0x7f) ||| 0x40) 31
+    (modifyNth (fun x => x &&& 0xf8) 0 b) (by simp; omega)
+  rw [modifyNth_getD_ne _ 0 31 _ _ (by decide)] at h2
+  have g0 := getD_toNat b 0 (by omega)
+  have g31 := getD_toNat b 31 (by omega)
+  have hlt := leToNat_lt b
+  rw [hlen] at hlt
+  simp only [UInt8.toNat_and, UInt8.toNat_or] at h1 h2
+  have c0 := byte_and_f8_eq _ (UInt8.toNat_lt (b.getD 0 0))
+  have c31 := byte_clamp_hi_eq _ (UInt8.toNat_lt (b.getD 31 0))
+  have k1 : (0xf8 : UInt8).toNat = 248 := rfl
+  have k2 : (0x7f : UInt8).toNat = 127 := rfl
+  have k3 : (0x40 : UInt8).toNat = 64 := rfl
+  rw [k1] at h1
+  rw [k2, k3] at h2
+  rw [c0] at h1
+  rw [c31] at h2
+  simp only [Nat.pow_zero, Nat.div_one, Nat.one_mul] at g0 h1
+  rw [g0] at h1
+  rw [g31] at h2
+  generalize leToNat b = x at *
+  generalize leToNat (modifyNth (fun x => x &&& 0xf8) 0 b) = y at *
+  generalize leToNat (modifyNth (fun x => (x &&& 0x7f) ||| 0x40) 31 (modifyNth (fun x => x &&& 0xf8) 0 b)) = z at *
+  have e31 : (256:Nat)^31 = 2^248 := by norm_num
+  rw [e31] at h2
+  omega
 /-! ## Key expansion -/
 
 theorem expandSeed_fst (seed : List UInt8) : (expandSeed seed).1 = clampedNat ((sha512 seed).take 32) := rfl
